@@ -1,6 +1,7 @@
 package rules
 
 import (
+	"go/types"
 	"fmt"
 	"sort"
 	"strings"
@@ -65,6 +66,14 @@ func reachableInScope(c *core.Ctx, roots ...*ssa.Function) []*ssa.Function {
 	}
 	var visit func(fn *ssa.Function)
 	visit = func(fn *ssa.Function) {
+		// a bound-method / thunk wrapper stands for the method it wraps
+		if fn != nil && fn.Synthetic != "" && !c.InScope(fn) {
+			if m, ok := fn.Object().(*types.Func); ok {
+				if real := c.Prog.FuncValue(m); real != nil && real != fn {
+					fn = real
+				}
+			}
+		}
 		if fn == nil || seen[fn] || !c.InScope(fn) {
 			return
 		}
